@@ -212,6 +212,64 @@ func runC18(c *Config, r *Report) {
 	r.Check(early == "", "R18.2", "genContent/no-type-based-skip-before-classification", pos(loop.Pos()), "objects are skipped before the classification only by name (exported, include/exclude lists)",
 		"genContent: "+early+", before the object kinds are distinguished: variables (or constants) whose type merely mentions type parameters or another property of the type are silently left out of the bindings")
 
+	// every exported interface that stays bound gets its wrapper: inside the block handling a
+	// type whose underlying type is an interface, a `continue` outside the method loop is
+	// accompanied by the removal of the type's binding (the constraint-interface skip does
+	// delete(typ, name)); a skip that keeps the binding emits a type without its _X wrapper
+	{
+		nIface, nSkip := 0, 0
+		ast.Inspect(gc.Decl.Body, func(m ast.Node) bool {
+			ifs, ok := m.(*ast.IfStmt)
+			if !ok || ifs.Init == nil {
+				return true
+			}
+			isIface := false
+			ast.Inspect(ifs.Init, func(k ast.Node) bool {
+				if ta, ok := k.(*ast.TypeAssertExpr); ok && ta.Type != nil && types.ExprString(ta.Type) == "*types.Interface" {
+					isIface = true
+				}
+				return true
+			})
+			if !isIface {
+				return true
+			}
+			nIface++
+			var visit func(stmts []ast.Stmt)
+			visit = func(stmts []ast.Stmt) {
+				for _, st := range stmts {
+					switch x := st.(type) {
+					case *ast.ForStmt, *ast.RangeStmt:
+						// the loops over methods and parameters have their own continues
+					case *ast.IfStmt:
+						deletes, continues := false, false
+						for _, b := range x.Body.List {
+							if es, ok := b.(*ast.ExprStmt); ok {
+								if c, ok := es.X.(*ast.CallExpr); ok && isBuiltinCall(info, c, "delete") {
+									deletes = true
+								}
+							}
+							if br, ok := b.(*ast.BranchStmt); ok && br.Tok == token.CONTINUE {
+								continues = true
+							}
+						}
+						if continues {
+							nSkip++
+							r.Check(deletes, "R18.2", fmt.Sprintf("genContent/interface-skip#%d/binding-removed-too", nSkip), pos(x.Pos()), "an interface type that gets no wrapper is not bound either",
+								"genContent skips the wrapper of an interface type under "+types.ExprString(x.Cond)+" but keeps the type bound: the generated file compiles, yet an exported interface has no _X wrapper type, so interpreted values can no longer be passed where compiled code expects that interface")
+						}
+					case *ast.BlockStmt:
+						visit(x.List)
+					}
+				}
+			}
+			visit(ifs.Body.List)
+			return false
+		})
+		if nIface == 0 {
+			r.Errorf("R18.2: the block of genContent handling types whose underlying type is an interface was not found")
+		}
+	}
+
 	c18Template(prog, pk, r)
 	// R18.4
 	restricted, err := restrictedNames(progCfg(prog))
@@ -420,6 +478,33 @@ func c18R5(prog *Prog, pk interface{}, fs map[string]*FuncInfo, r *Report) {
 						if call, ok := m.(*ast.CallExpr); ok && isCallTo(info, call, "go/constant.Compare") {
 							verified = true
 						}
+						return true
+					})
+				}
+				// the binary form is printed with at least as many digits as the mantissa has bits
+				// (int(f.Prec())), or with the shortest round-tripping form (-1): a smaller, computed
+				// number of digits can be one short for 512-bit constants, and the comparison above
+				// only repairs values held as exact rationals
+				for _, s := range cc.Body {
+					ast.Inspect(s, func(m ast.Node) bool {
+						call, ok := m.(*ast.CallExpr)
+						if !ok || !isCallTo(info, call, "math/big.Float.Text") || len(call.Args) != 2 {
+							return true
+						}
+						okPrec := false
+						arg := unparen(call.Args[1])
+						if tv, ok := info.Types[arg]; ok && tv.Value != nil && tv.Value.ExactString() == "-1" {
+							okPrec = true
+						}
+						if conv, ok := arg.(*ast.CallExpr); ok && len(conv.Args) == 1 {
+							if inner, ok := unparen(conv.Args[0]).(*ast.CallExpr); ok && isCallTo(info, inner, "math/big.Float.Prec") {
+								if tv, ok := info.Types[conv.Fun]; ok && tv.IsType() {
+									okPrec = true
+								}
+							}
+						}
+						r.Check(okPrec, "R18.5", "fixConst/Float/digits", prog.pos(call.Pos()), "printed with int(f.Prec()) digits (or the shortest exact form)",
+							"fixConst prints the binary form of a Float constant with "+types.ExprString(call.Args[1])+" digits, neither the mantissa size int(f.Prec()) nor -1: a computed number of decimal digits can be one short for wide mantissas (constants beyond 2^±4096 are held as 512-bit floats), and the literal then reads back one ulp off while the rational fallback does not apply")
 						return true
 					})
 				}
